@@ -693,58 +693,61 @@ Proof.
   auto.
 Qed.
 
-(** * Examples: the hypotheses above are satisfiable, on non-trivial states *)
+(** * Examples: the hypotheses above are satisfiable, on non-trivial states
+
+    (Runs are evaluated with [vm_compute]: call-by-name conversion duplicates
+    the predecessor state at every step.) *)
+
+Lemma run_ex (sch : list label) (P : lstate -> Prop) :
+  match run lstep l_init sch with Some s => P s | None => False end ->
+  exists s, run lstep l_init sch = Some s /\ P s.
+Proof. destruct (run lstep l_init sch) as [s|]; [eauto|tauto]. Qed.
+
+Lemma reach_ex (sch : list label) (P : lstate -> Prop) :
+  match run lstep l_init sch with Some s => P s | None => False end ->
+  exists s, lreach s /\ P s.
+Proof. intros H. destruct (run_ex sch P H) as (s & Hr & Hp). exists s. split; [exists sch; exact Hr|exact Hp]. Qed.
 
 Definition sch_dup : list label :=
   [LCall 0 5; LP 0; LP 0; LCall 1 5; LP 1; LP 1; LCall 0 6; LP 0; LP 0; LC].
 
 Example ex_reach_dup :
-  exists s, lreach s /\ q_queue (l_q s) = [6] /\
+  exists s, lreach s /\ (q_queue (l_q s) = [6] /\
             lin (l_hist s) = [LPop 5 1; LIns 6 true; LIns 5 false; LIns 5 true] /\
             weight (delivered (lin (l_hist s))) = 2 /\ count_ins (lin (l_hist s)) = 3 /\
-            l_cp s = CIdle.
-Proof.
-  eexists. split; [exists sch_dup; reflexivity|]. cbn. repeat split; reflexivity.
-Qed.
+            l_cp s = CIdle).
+Proof. apply (reach_ex sch_dup). vm_compute. repeat split; reflexivity. Qed.
 
 (** consumer at the select, item pending, producer 0 between insert and token *)
 Example ex_window :
-  exists s, lreach s /\ l_cp s = CWait /\ q_queue (l_q s) = [5] /\
-            l_pp s 0%nat = PInserted 5 true /\ q_token (l_q s) = false.
-Proof.
-  eexists. split; [exists [LC; LCall 0 5; LP 0]; reflexivity|]. cbn. repeat split; reflexivity.
-Qed.
+  exists s, lreach s /\ (l_cp s = CWait /\ q_queue (l_q s) = [5] /\
+            l_pp s 0%nat = PInserted 5 true /\ q_token (l_q s) = false).
+Proof. apply (reach_ex [LC; LCall 0 5; LP 0]). vm_compute. repeat split; reflexivity. Qed.
 
 (** consumer legitimately parked *)
 Example ex_blocked :
-  exists s, lreach s /\ l_cp s = CWait /\ (forall b, lstep s (LSel b) = None).
-Proof.
-  eexists. split; [exists [LC]; reflexivity|]. cbn. split; [reflexivity|]. intros []; reflexivity.
-Qed.
+  exists s, lreach s /\ (l_cp s = CWait /\ (forall b, lstep s (LSel b) = None)).
+Proof. apply (reach_ex [LC]). vm_compute. split; [reflexivity|]. intros []; reflexivity. Qed.
 
 (** the consumer is told "closed" after the item inserted before Close was delivered *)
 Example ex_drain :
-  exists s s', lreach s /\ lstep s LC = Some s' /\
+  exists s, lreach s /\ (exists s', lstep s LC = Some s' /\
                l_hist s' = ERetNext NClosed :: l_hist s /\
-               delivered (lin (l_hist s')) = [(5, 0)].
+               delivered (lin (l_hist s')) = [(5, 0)]).
 Proof.
-  eexists. eexists. split; [exists [LCall 0 5; LP 0; LP 0; LClose; LC; LC; LSel SClosed]; reflexivity|].
-  cbn. repeat split; reflexivity.
+  apply (reach_ex [LCall 0 5; LP 0; LP 0; LClose; LC; LC; LSel SClosed]). vm_compute.
+  eexists. split; [reflexivity|]. split; reflexivity.
 Qed.
 
 (** cancellation reaches a waiting consumer *)
 Example ex_cancel :
-  exists s, lreach s /\ l_cp s = CWait /\ l_cancelled s = true.
-Proof.
-  eexists. split; [exists [LC; LCancel]; reflexivity|]. cbn. split; reflexivity.
-Qed.
+  exists s, lreach s /\ (l_cp s = CWait /\ l_cancelled s = true).
+Proof. apply (reach_ex [LC; LCancel]). vm_compute. split; reflexivity. Qed.
 
 (** a refused call *)
 Example ex_refused :
-  exists s s', lreach s /\ q_closed (l_q s) = true /\ lstep s (LCall 3 9) = Some s'.
-Proof.
-  eexists. eexists. split; [exists [LClose]; reflexivity|]. cbn. split; reflexivity.
-Qed.
+  exists s, lreach s /\ (q_closed (l_q s) = true /\ exists s', lstep s (LCall 3 9) = Some s').
+Proof. apply (reach_ex [LClose]). vm_compute. split; [reflexivity|]. eexists; reflexivity. Qed.
 
 (** An Insert that overlaps Close: producer 0 passes the closed check, Close
     runs, the consumer finds the queue empty and is told "closed"; then the
@@ -756,10 +759,10 @@ Definition sch_overlap : list label :=
 
 Theorem insert_close_overlap_example :
   exists s, run lstep l_init sch_overlap = Some s /\
-            l_hist s = [ERetIns 0 7 (IOk true); EIns 0 7 true; ERetNext NClosed; EClose;
-                        ECallNext; ECallIns 0 7] /\
-            q_queue (l_q s) = [7] /\ l_cp s = CIdle.
-Proof. eexists. split; [reflexivity|]. cbn. repeat split; reflexivity. Qed.
+            (l_hist s = [ERetIns 0 7 (IOk true); EIns 0 7 true; ERetNext NClosed; EClose;
+                         ECallNext; ECallIns 0 7] /\
+             q_queue (l_q s) = [7] /\ l_cp s = CIdle).
+Proof. apply (run_ex sch_overlap). vm_compute. repeat split; reflexivity. Qed.
 
 (** * Soundness of the executable specification K_P (mode E)
 
